@@ -62,7 +62,7 @@ const paramsFixedHistories = 6
 // ---------------------------------------------------------------------------------------------
 // which repo_patches/params_*.diff does /repo contain? (probed on the real validators, overridable)
 
-type paramsCfg struct{ mintValidate, mintClamp, betFee, house int }
+type paramsCfg struct{ mintValidate, mintClamp, betFee, house, houseFeeCap int }
 
 func mkPhase(infl, coef string) minttypes.Phase {
 	return minttypes.Phase{Inflation: sdkmath.LegacyMustNewDecFromStr(infl), YearCoefficient: sdkmath.LegacyMustNewDecFromStr(coef)}
@@ -89,6 +89,12 @@ func probeParamsCfg() paramsCfg {
 	if hp.Validate() != nil {
 		c.house = 1
 	}
+	hp2 := housetypes.DefaultParams()
+	hp2.HouseParticipationFee = sdkmath.LegacyNewDec(2)
+	if hp2.Validate() != nil {
+		c.houseFeeCap = 1
+	}
+	c.houseFeeCap = int(envInt("VERIF_PARAMS_HOUSE_FEE_CAP", int64(c.houseFeeCap)))
 	c.mintValidate = int(envInt("VERIF_PARAMS_MINT_VALIDATE", int64(c.mintValidate)))
 	c.mintClamp = int(envInt("VERIF_PARAMS_MINT_CLAMP", int64(c.mintClamp)))
 	c.betFee = int(envInt("VERIF_PARAMS_BET_FEE", int64(c.betFee)))
@@ -101,6 +107,7 @@ func (c paramsCfg) emit(out *Out) {
 	out.Op("CFG mintClamp %d", c.mintClamp)
 	out.Op("CFG betFee %d", c.betFee)
 	out.Op("CFG house %d", c.house)
+	out.Op("CFG houseFeeCap %d", c.houseFeeCap)
 }
 
 // ---------------------------------------------------------------------------------------------
